@@ -293,7 +293,8 @@ class RepeatedNodeWrapper(MutableSequence[_M]):
     def __eq__(self, other: object) -> bool:
         return (
             isinstance(other, Collection) and
-            all(a == b for a, b in itertools.zip_longest(self, other)))
+            len(self) == len(other) and
+            all(a == b for a, b in zip(self, other)))
 
     def auto_claim_comments(self) -> None:
         self._repeated.auto_claim_comments()
